@@ -3,6 +3,7 @@ import Driver.Ledger
 import Driver.LedgerOracle
 import Driver.Pages
 import Driver.Fmv
+import Driver.Etrade
 open Driver
 
 def runLedger (c : Case) : Res :=
@@ -23,6 +24,7 @@ def dispatch (c : Case) : Res :=
   | "ledger" => runLedger c
   | "pages" => runPages c
   | "fmv" => runFmv c
+  | "etrade" => runEtrade c
   | f => { verdict := "BADCASE", msg := s!"unknown family {f}" }
 
 def main : IO Unit := do
